@@ -20,6 +20,12 @@ type c11call struct {
 func (c c11call) name() string { return "derive" + c.plugin + c.suffix }
 
 func (c c11call) src() string {
+	switch c.plugin {
+	case "Clone":
+		return fmt.Sprintf("_ = %s(&T%d{})", c.name(), c.typ)
+	case "DeepCopy":
+		return fmt.Sprintf("%s(&T%d{}, &T%d{})", c.name(), c.typ, c.typ)
+	}
 	return fmt.Sprintf("_ = %s(&T%d{}, &T%d{})", c.name(), c.typ, c.typ)
 }
 
@@ -29,6 +35,7 @@ type c11pkg struct {
 	calls    []c11call
 	twoFiles bool
 	userFn   bool
+	userVar  bool // the user's callables are package-level variables of function type, not func declarations
 	lateUse  bool // the user functions are called only from the last file (two-file layout)
 	pregen   bool // derived.gen.go already holds the output for the first call alone (an earlier run)
 }
@@ -42,8 +49,11 @@ func (p c11pkg) label() string {
 	if p.twoFiles {
 		l += " [two files]"
 	}
-	if p.userFn {
+	if p.userFn && !p.userVar {
 		l += " [user funcs deriveEqual_/deriveCompare_ called]"
+	}
+	if p.userFn && p.userVar {
+		l += " [user variables of function type deriveEqual_/deriveCompare_ called]"
 	}
 	if p.lateUse {
 		l += " [those user funcs are defined and called only in the last file; all derive calls are in the first]"
@@ -54,11 +64,18 @@ func (p c11pkg) label() string {
 	return l
 }
 
+func (p c11pkg) userDecls() string {
+	if p.userVar {
+		return "var deriveEqual_ = func(x int) int { return x }\nvar deriveCompare_ = func(x int) int { return x }\nvar deriveDeepCopy_ = func(x int) int { return x }\n\nvar _ = deriveEqual_(1) + deriveCompare_(2) + deriveDeepCopy_(3)\n\n"
+	}
+	return "func deriveEqual_(x int) int { return x }\nfunc deriveCompare_(x int) int { return x }\nfunc deriveDeepCopy_(x int) int { return x }\n\nvar _ = deriveEqual_(1) + deriveCompare_(2) + deriveDeepCopy_(3)\n\n"
+}
+
 func (p c11pkg) files() pkgFiles {
 	var a, b strings.Builder
 	a.WriteString("package m\n\ntype T1 struct{ A int }\ntype T2 struct{ B int }\ntype T3 struct{ C int }\n\n")
 	if p.userFn && !p.lateUse {
-		a.WriteString("func deriveEqual_(x int) int { return x }\nfunc deriveCompare_(x int) int { return x }\n\nvar _ = deriveEqual_(1) + deriveCompare_(2)\n\n")
+		a.WriteString(p.userDecls())
 	}
 
 	split := len(p.calls)
@@ -77,7 +94,7 @@ func (p c11pkg) files() pkgFiles {
 	if p.twoFiles {
 		b.WriteString("package m\n\n")
 		if p.userFn && p.lateUse {
-			b.WriteString("func deriveEqual_(x int) int { return x }\nfunc deriveCompare_(x int) int { return x }\n\nvar _ = deriveEqual_(1) + deriveCompare_(2)\n\n")
+			b.WriteString(p.userDecls())
 		}
 		b.WriteString("func useB() {\n")
 		for _, c := range p.calls[split:] {
@@ -131,6 +148,14 @@ func checkC11(tier string) {
 			}
 		}
 	}
+	// second alphabet: Clone requests its DeepCopy helper on its own; the user's DeepCopy names must not collide with it
+	var alphabet2 []c11call
+	for t := 1; t <= 2; t++ {
+		alphabet2 = append(alphabet2, c11call{"Clone", "", t})
+		for _, sf := range []string{"", "A"} {
+			alphabet2 = append(alphabet2, c11call{"DeepCopy", sf, t})
+		}
+	}
 	var pkgs []c11pkg
 	var gen func(cur []c11call)
 	gen = func(cur []c11call) {
@@ -139,13 +164,13 @@ func checkC11(tier string) {
 				if two && len(cur) < 2 {
 					continue
 				}
-				for _, uf := range []bool{false, true} {
-					pkgs = append(pkgs, c11pkg{append([]c11call(nil), cur...), two, uf, false, false})
-					if len(cur) >= 2 && !two {
-						pkgs = append(pkgs, c11pkg{append([]c11call(nil), cur...), two, uf, false, true})
+				for _, uf := range []int{0, 1, 2} {
+					pkgs = append(pkgs, c11pkg{append([]c11call(nil), cur...), two, uf > 0, uf == 2, false, false})
+					if len(cur) >= 2 && !two && uf < 2 {
+						pkgs = append(pkgs, c11pkg{append([]c11call(nil), cur...), two, uf > 0, false, false, true})
 					}
-					if two && uf {
-						pkgs = append(pkgs, c11pkg{append([]c11call(nil), cur...), two, uf, true, false})
+					if two && uf > 0 {
+						pkgs = append(pkgs, c11pkg{append([]c11call(nil), cur...), two, true, uf == 2, true, false})
 					}
 				}
 			}
@@ -157,6 +182,8 @@ func checkC11(tier string) {
 			gen(append(cur, c))
 		}
 	}
+	gen(nil)
+	alphabet = alphabet2
 	gen(nil)
 	flagSets := [][]string{nil, {"-autoname"}, {"-dedup"}, {"-autoname", "-dedup"}}
 	type item struct {
@@ -179,7 +206,7 @@ func checkC11(tier string) {
 		files := it.p.files()
 		defer removeAll(dir)
 		if it.p.pregen {
-			first := c11pkg{it.p.calls[:1], false, it.p.userFn, false, false}
+			first := c11pkg{it.p.calls[:1], false, it.p.userFn, it.p.userVar, false, false}
 			writePkg(dir, first.files())
 			if pr := goderive(dir, "."); pr.Exit != 0 {
 				rep.Violation("rejected-but-must-succeed|flags=(no flags)|single-call", fmt.Sprintf("single call %s rejected: %s", first.label(), head(firstErrorLine(pr.Stderr), 200)), map[string]interface{}{"engine": "e2", "files": first.files()})
@@ -200,6 +227,12 @@ func checkC11(tier string) {
 		}
 		viol := func(clause, what string) {
 			key := fmt.Sprintf("%s|flags=%s|conflict=%v|duplicate=%v|userfn=%v|pregen=%v|lateuse=%v", clause, flagStr, conflict, dup, it.p.userFn, it.p.pregen, it.p.lateUse)
+			if it.p.userVar {
+				key += "|uservar"
+			}
+			if it.p.calls[0].plugin == "Clone" || it.p.calls[0].plugin == "DeepCopy" {
+				key += "|clone+deepcopy"
+			}
 			rep.Violation(key, fmt.Sprintf("%s: calls %s with %s: %s; goderive exit %d: %s", clause, it.p.label(), flagStr, what, r.Exit, head(firstErrorLine(r.Stderr), 200)),
 				map[string]interface{}{"engine": "e2", "files": files, "flags": it.fl, "args": []string{"."}, "pregen_first_call": it.p.pregen, "stderr": tail(r.Stderr, 1500)})
 		}
@@ -248,8 +281,10 @@ func checkC11(tier string) {
 				seen := map[string]string{}
 				for name, ps := range cp.derivedFuncs() {
 					pl := "Compare"
-					if strings.HasPrefix(name, "deriveEqual") {
-						pl = "Equal"
+					for _, known := range []string{"Equal", "DeepCopy", "Clone"} {
+						if strings.HasPrefix(name, "derive"+known) {
+							pl = known
+						}
 					}
 					k := pl + "(" + strings.Join(ps, ",") + ")"
 					if other, dupl := seen[k]; dupl {
@@ -317,7 +352,7 @@ func checkC11(tier string) {
 	rep.Cov["evaluations"] = len(items)
 	rep.Cov["distinct_nontrivial"] = nontriv
 	rep.Cov["result_type_checks"] = typechecks
-	rep.Cov["rule"] = "state = one package: a sequence of up to k derive calls, each (plugin in {Equal, Compare}) x (name in {bare prefix, prefix+A, prefix+B}) x (argument type in three pairwise non-assignable named struct pointers), in one file or split over two, with or without user functions that are called and carry the first fresh names goderive would mint (deriveEqual_, deriveCompare_), from scratch or on top of the derived.gen.go an earlier run produced for the first call alone; transition = one run of the real goderive on a fresh copy under one of the four flag combinations, exit status compared with the independently computed conflict/duplicate predicate, results of successful runs type-checked in-process and (for -dedup) checked for one function per plugin and parameter list; non-trivial = runs on packages with at least one clash"
+	rep.Cov["rule"] = "state = one package: a sequence of up to k derive calls, each (plugin in {Equal, Compare}) x (name in {bare prefix, prefix+A, prefix+B}) x (argument type in three pairwise non-assignable named struct pointers), in one file or split over two, with or without user functions (func declarations, or package-level variables of function type) that are called and carry the first fresh names goderive would mint (deriveEqual_, deriveCompare_), from scratch or on top of the derived.gen.go an earlier run produced for the first call alone; plus all sequences up to k over {Clone(*T1), Clone(*T2)} and DeepCopy x {bare, A} x {*T1, *T2} (Clone requests a DeepCopy helper itself); transition = one run of the real goderive on a fresh copy under one of the four flag combinations, exit status compared with the independently computed conflict/duplicate predicate, results of successful runs type-checked in-process and (for -dedup) checked for one function per plugin and parameter list; non-trivial = runs on packages with at least one clash"
 	rep.Cov["bound"] = fmt.Sprintf("all call sequences of length 1..%d over an 18-call alphabet x {one file, two files} x {no user functions, user functions} x {from scratch, after an earlier run on the first call} = %d package states x 4 flag sets", kmax, states)
 	rep.Cov["distinct_outcomes"] = outcomes
 	rep.Cov["exhaustive"] = true
